@@ -123,7 +123,7 @@ impl Selector {
             may_queue::verif::point(may_queue::verif::site::EP_EVENT_TOOK, id);
             // it's safe to remove the timer since we are running the timer_list in the same thread
             #[cfg(feature = "io_timeout")]
-            data.timer.borrow_mut().take().map(|h| {
+            data.timer.take().map(|h| {
                 unsafe {
                     // tell the timer handler not to cancel the io
                     // it's not always true that you can really remove the timer entry
@@ -213,7 +213,7 @@ impl Selector {
     #[inline]
     pub fn del_fd(&self, io_data: &IoData) {
         #[cfg(feature = "io_timeout")]
-        if let Some(h) = io_data.timer.borrow_mut().take() {
+        if let Some(h) = io_data.timer.take() {
             unsafe {
                 // mark the timer as removed if any, this only happened
                 // when cancel an IO. what if the timer expired at the same time?
@@ -255,6 +255,6 @@ impl Selector {
             // wake up the event loop thread to recall the next wait timeout
             self.wakeup(id);
         }
-        io.timer.borrow_mut().replace(h);
+        io.timer.store(h);
     }
 }
